@@ -28,7 +28,7 @@ fn ref_ends_field(b: u8) -> bool {
     b == b' ' || b == b'\t' || b == b'(' || b == b')' || b == b';' || b == b'\n'
 }
 
-// @harness props=C23,C24 tier=quick mem=6 t=2400 stubs="S6"
+// @harness props=C23,C24 tier=quick mem=3 t=900 stubs="S6"
 //   fn="Parser::parse_unknown_rdata_hex_digits,Parser::parse_ascii_hex_digit,Reader::read_field_octet"
 //   bound="RFC 3597 hex field for a declared length of 2: 4 symbolic octets followed by a newline; Ok iff all four are hex digits (both cases), octets = the nibbles; unwind 7"
 //   sym="data:[u8;4]"
@@ -132,7 +132,7 @@ fn c24_type_token4() {
     core::mem::forget(p);
 }
 
-// @harness props=C24 tier=quick mem=8 t=3600 stubs="S6"
+// @harness props=C24 tier=quick mem=6 t=1500 stubs="S6"
 //   fn="Parser::parse_type,Reader::read_field,<Type as FromStr>::from_str"
 //   bound="type field NULL in every mix of upper and lower case (16 spellings) followed by a newline: rejected as NullNotAllowed; unwind 12 (NULL is the 10th mnemonic)"
 //   sym="4 case bits"
